@@ -523,8 +523,9 @@ def lib_adapter(which, config):
             if st["k"] == "set":
                 return ("set", {"i": st["i"]})
             on2 = config.get("o_name", "o") if kind in ("async", "reset") else "o"
+            # (resets of the pulse synchroniser's domains, "ri" / "ro": the domains are built reset-less here)
             return ("drive", {(k if k == "a" else ("o.rst" if k == "r" else (on2 if k == "o" else k) + ".clk")): v
-                              for k, v in st["l"].items()})
+                              for k, v in st["l"].items() if k not in ("ri", "ro")})
         return dut, doms, ins, outs, tr, extra
     else:
         from props import c16
